@@ -69,7 +69,10 @@ func genContent(ch *core.Chooser, hosts []string, bufHint int, maxLines int) str
 		case c <= 6:
 			line = workload.GenRule(ch, workload.AllKinds[ch.Intn("list.kind", len(workload.AllKinds))], hosts, nil)
 		case c == 7:
-			line = []string{" ", "\t", "  \t "}[ch.Intn("content.lead", 3)] + workload.GenRule(ch, workload.KBlock, hosts, nil) + []string{" ", "\t\t", " \t"}[ch.Intn("content.trail", 3)]
+			// blanks around a rule of ANY kind (a cosmetic or hosts line
+			// that is indented is still that kind of rule)
+			k := []int{workload.KBlock, workload.KCosmetic, workload.KCosmetic, workload.KCosmeticException, workload.KHostV4, workload.KBareDomain, workload.KComment}[ch.Intn("content.leadkind", 7)]
+			line = []string{" ", "\t", "  \t "}[ch.Intn("content.lead", 3)] + workload.GenRule(ch, k, hosts, nil) + []string{" ", "\t\t", " \t"}[ch.Intn("content.trail", 3)]
 		case c == 8:
 			line = utf8Lines[ch.Intn("content.utf8", len(utf8Lines))]
 		case c == 9:
